@@ -40,6 +40,13 @@ def _integrand(kind):
     if kind == "vec3":
         g1, g2 = F.GenzProductPeak([10.0, 10.0], [0.7, 0.2]), F.GenzOszillatory([3.0, 1.0], 0.25)
         return (lambda x: [g1.eval(x), g2.eval(x), 1.0 + x[0]]), np.array([g1.getAnalyticSolutionIntegral(A, B), g2.getAnalyticSolutionIntegral(A, B), 1.5])
+    if kind == "peak_tiny":        # same integrand scaled by an exact power of two: a reference of tiny magnitude is still non-zero
+        ev, ref = _integrand("peak")
+        return (lambda x: [2.0 ** -32 * v for v in ev(x)]), ref * 2.0 ** -32
+    if kind == "vec_scaled":       # components of wildly different magnitude
+        ev, ref = _integrand("vec")
+        sc = np.array([2.0 ** -34, 2.0 ** 20])
+        return (lambda x: [a * b for a, b in zip(sc, ev(x))]), ref * sc
     raise ValueError(kind)
 
 
@@ -159,7 +166,7 @@ def run_case(case):
 def main(ctx):
     q = ctx.tier == "quick"
     strategies = ["dw", "dw_noreb", "es", "es_v1", "es_auto", "cell"]
-    kinds = ["peak", "vec", "zero", "disc"] if q else ["peak", "vec", "zero", "disc", "c0", "vec3"]
+    kinds = ["peak", "vec", "zero", "disc", "peak_tiny", "vec_scaled"] if q else ["peak", "vec", "zero", "disc", "c0", "vec3", "peak_tiny", "vec_scaled"]
     norms = [1, 2, "inf"]
     base = [{"config": {"strategy": s, "integrand": k, "norm": n, "tol": -1, "min_evaluations": 1, "max_evaluations": 90 if q else 150}}
             for s in strategies for k in kinds for n in norms]
@@ -188,6 +195,17 @@ def main(ctx):
         ctx.absorb(case, res, group=case["config"]["strategy"])
     for i in (0, len(cases) // 3, 2 * len(cases) // 3):
         ctx.add_sample({"case": cases[i], "evaluations": results[i].get("evals"), "points": results[i].get("pts")})
+    # metamorphic cross-check: scaling the integrand (and the reference) by an exact power of two must not change a single stopping
+    # decision -> the baselines of "peak" and "peak_tiny" must have identical point counts
+    bykey = {(b["config"]["strategy"], b["config"]["integrand"], b["config"]["norm"]): r for b, r in zip(base, ctx.map(base, chunksize=1))}
+    for (st, kind, nm), r in bykey.items():
+        if kind == "peak_tiny":
+            other = bykey.get((st, "peak", nm))
+            if other is not None and other.get("pts") != r.get("pts"):
+                ctx.record_failure(fail("scale_invariance", "strategy %s norm %s: point counts %r for the integrand, %r for the integrand scaled by 2^-32"
+                                        % (st, nm, other.get("pts"), r.get("pts")), {"strategy": st.split("_")[0]}),
+                                   {"config": {"strategy": st, "integrand": "peak_tiny", "norm": nm, "tol": -1, "min_evaluations": 1,
+                                               "max_evaluations": 90 if q else 150}})
     ctx.bounds = {"strategies": strategies, "integrands": kinds, "norms": norms, "limit_cases": len(cases), "baselines": len(base)}
     return ctx.finish(
         rule="one case = one complete adaptive run on the real loop with the library's own estimator; the lattice is strategy x "
